@@ -13,6 +13,7 @@ import (
 	"time"
 
 	"github.com/cloudwego/eino/callbacks"
+	"github.com/cloudwego/eino/components/tool"
 	"github.com/cloudwego/eino/compose"
 	"github.com/cloudwego/eino/schema"
 
@@ -33,7 +34,11 @@ type env struct {
 	execs     []int              // node executions in start order
 	brLog     map[[2]int][][]int // (node, branch index) -> outcomes in evaluation order
 	producers []*producer
-	sched     [][]string // batches of completed tasks (node keys) as taskManager.wait returned them (C03 trace hook)
+	sched     [][]string     // batches of completed tasks (node keys) as taskManager.wait returned them (C03 trace hook), first run
+	scheds    [][][]string   // the same for every task manager of the case, in order of first appearance (nested runs, resumed runs)
+	collected map[string]int // node key -> tasks collected by any run loop of the case (resumed runs included)
+	resumes   int
+	pipes     []func() // closes the reader side of every Pipe the harness created (released after an aborted run)
 }
 
 func newEnv(c *Case) *env { return &env{c: c, brLog: map[[2]int][][]int{}} }
@@ -42,6 +47,24 @@ func (e *env) exec(idx int) {
 	e.mu.Lock()
 	e.execs = append(e.execs, idx)
 	e.mu.Unlock()
+}
+
+func (e *env) addPipe(closeReader func()) {
+	e.mu.Lock()
+	e.pipes = append(e.pipes, closeReader)
+	e.mu.Unlock()
+}
+
+// releaseAll closes the reader side of every pipe of the case. Used only after a run that did not
+// complete (outside the property): its blocked producers would otherwise pile up in the process.
+func (e *env) releaseAll() {
+	e.mu.Lock()
+	ps := e.pipes
+	e.pipes = nil
+	e.mu.Unlock()
+	for _, f := range ps {
+		lib.Recover(f) // an already closed stream panics on the second close
+	}
 }
 
 func (e *env) newProducer(name string) *producer {
@@ -136,13 +159,14 @@ func readPrefix[T any](in *schema.StreamReader[T], k int) error {
 }
 
 func keyedLambda[I, O any](e *env, idx int) *compose.Lambda {
-	spec := e.c.Nodes[idx]
+	spec := *e.c.spec(idx)
 	name := nodeName(idx)
 	switch spec.Kind {
 	case "prod":
 		return compose.StreamableLambda(func(ctx context.Context, in I) (*schema.StreamReader[O], error) {
 			e.exec(idx)
 			sr, sw := schema.Pipe[O](spec.Cap)
+			e.addPipe(sr.Close)
 			p := e.newProducer(name)
 			go produce(p, spec.Items, spec.Yield, func(i int) bool { return sw.Send(chunkOf[O](name, i), nil) }, sw.Close)
 			return sr, nil
@@ -167,9 +191,67 @@ func keyedLambda[I, O any](e *env, idx int) *compose.Lambda {
 
 var errNodeFailed = errors.New("node failed on purpose")
 
-func lambdaOf(e *env, idx int) *compose.Lambda {
-	spec := e.c.Nodes[idx]
+// streamTool is a tool.StreamableTool whose every call starts a producer goroutine.
+type streamTool struct {
+	e     *env
+	name  string
+	items int
+	cap   int
+	yield int
+}
+
+func (t *streamTool) Info(context.Context) (*schema.ToolInfo, error) {
+	return &schema.ToolInfo{Name: t.name, Desc: t.name}, nil
+}
+
+func (t *streamTool) StreamableRun(_ context.Context, _ string, _ ...tool.Option) (*schema.StreamReader[string], error) {
+	sr, sw := schema.Pipe[string](t.cap)
+	t.e.addPipe(sr.Close)
+	p := t.e.newProducer(t.name)
+	go produce(p, t.items, t.yield, func(i int) bool { return sw.Send(fmt.Sprintf("%s.%d,", t.name, i), nil) }, sw.Close)
+	return sr, nil
+}
+
+// toolsLambda: a StreamableLambda that asks a real ToolsNode to stream spec.Tools tool calls and
+// converts the merged message stream back to M chunks.
+func toolsLambda(e *env, idx int) *compose.Lambda {
+	spec := *e.c.spec(idx)
 	name := nodeName(idx)
+	var tools []tool.BaseTool
+	msg := &schema.Message{Role: schema.Assistant}
+	for k := 0; k < spec.Tools; k++ {
+		tn := fmt.Sprintf("%st%d", name, k)
+		tools = append(tools, &streamTool{e: e, name: tn, items: spec.Items, cap: spec.Cap, yield: spec.Yield})
+		msg.ToolCalls = append(msg.ToolCalls, schema.ToolCall{ID: fmt.Sprintf("c%d", k), Function: schema.FunctionCall{Name: tn, Arguments: "{}"}})
+	}
+	node, err := compose.NewToolNode(context.Background(), &compose.ToolsNodeConfig{Tools: tools})
+	return compose.StreamableLambda(func(ctx context.Context, in M) (*schema.StreamReader[M], error) {
+		e.exec(idx)
+		if err != nil {
+			return nil, err
+		}
+		out, err := node.Stream(ctx, msg)
+		if err != nil {
+			return nil, err
+		}
+		return schema.StreamReaderWithConvert(out, func(ms []*schema.Message) (M, error) {
+			s := ""
+			for _, m := range ms {
+				if m != nil {
+					s += m.Content
+				}
+			}
+			return M{name: s}, nil
+		}), nil
+	})
+}
+
+func lambdaOf(e *env, idx int) *compose.Lambda {
+	spec := *e.c.spec(idx)
+	name := nodeName(idx)
+	if spec.Kind == "tools" && !spec.Fail {
+		return toolsLambda(e, idx)
+	}
 	if spec.Fail {
 		return compose.TransformableLambda(func(ctx context.Context, in *schema.StreamReader[M]) (*schema.StreamReader[M], error) {
 			e.exec(idx)
@@ -182,6 +264,7 @@ func lambdaOf(e *env, idx int) *compose.Lambda {
 		return compose.TransformableLambda(func(ctx context.Context, in *schema.StreamReader[M]) (*schema.StreamReader[M], error) {
 			e.exec(idx)
 			sr, sw := schema.Pipe[M](spec.Cap)
+			e.addPipe(sr.Close)
 			p := e.newProducer(name)
 			go forward(p, in, sw, spec.Yield)
 			return sr, nil
@@ -218,7 +301,9 @@ func graphKey(i int) string {
 	return nodeName(i)
 }
 
-func branchOf(e *env, node, bi int, b *BranchSpec) *compose.GraphBranch {
+// keyOf maps the node references of the branch (indices local to its graph) to graph keys.
+func branchOf(e *env, node, bi int, b *BranchSpec, keyOf func(int) string) *compose.GraphBranch {
+	graphKey := keyOf
 	ends := map[string]bool{}
 	for _, t := range b.Ends {
 		ends[graphKey(t)] = true
@@ -257,10 +342,22 @@ func branchOf(e *env, node, bi int, b *BranchSpec) *compose.GraphBranch {
 
 func buildWorkflow(e *env) (compose.Runnable[M, M], error) {
 	c := e.c
-	wf := compose.NewWorkflow[M, M]()
+	wf := compose.NewWorkflow[M, M](newGraphOpts(c.State)...)
 	nodes := make([]*compose.WorkflowNode, len(c.Nodes))
 	for i := range c.Nodes {
-		nodes[i] = wf.AddLambdaNode(nodeName(i), lambdaOf(e, i))
+		if c.Nodes[i].Kind == "sub" {
+			sub, opts, err := buildSub(e, i)
+			if err != nil {
+				return nil, err
+			}
+			nodes[i] = wf.AddGraphNode(nodeName(i), sub, opts)
+			continue
+		}
+		var opts []compose.GraphAddNodeOpt
+		if c.State {
+			opts = stateOpts(&c.Nodes[i])
+		}
+		nodes[i] = wf.AddLambdaNode(nodeName(i), lambdaOf(e, i), opts...)
 	}
 	wire := func(n *compose.WorkflowNode, ins []InputSpec) {
 		for _, in := range ins {
@@ -283,23 +380,135 @@ func buildWorkflow(e *env) (compose.Runnable[M, M], error) {
 	}
 	wire(wf.End(), c.EndInputs)
 	for bi := range c.StartBranches {
-		wf.AddBranch(compose.START, branchOf(e, START, bi, &c.StartBranches[bi]))
+		wf.AddBranch(compose.START, branchOf(e, START, bi, &c.StartBranches[bi], graphKey))
 	}
 	for i := range c.Nodes {
 		for bi := range c.Nodes[i].Branches {
-			wf.AddBranch(nodeName(i), branchOf(e, i, bi, &c.Nodes[i].Branches[bi]))
+			wf.AddBranch(nodeName(i), branchOf(e, i, bi, &c.Nodes[i].Branches[bi], graphKey))
 		}
 	}
-	return wf.Compile(context.Background())
+	return wf.Compile(context.Background(), interruptOpts(c)...)
 }
 
-func build(e *env) (compose.Runnable[M, M], error) {
-	c := e.c
-	if c.Mode == "workflow" {
-		return buildWorkflow(e)
+// memStore is an in-memory compose.CheckPointStore.
+type memStore struct {
+	mu sync.Mutex
+	m  map[string][]byte
+}
+
+func (s *memStore) Get(_ context.Context, id string) ([]byte, bool, error) {
+	s.mu.Lock()
+	defer s.mu.Unlock()
+	b, ok := s.m[id]
+	return b, ok, nil
+}
+
+func (s *memStore) Set(_ context.Context, id string, b []byte) error {
+	s.mu.Lock()
+	defer s.mu.Unlock()
+	s.m[id] = append([]byte(nil), b...)
+	return nil
+}
+
+func interruptOpts(c *Case) []compose.GraphCompileOption {
+	if len(c.IntBefore)+len(c.IntAfter) == 0 {
+		return nil
 	}
-	g := compose.NewGraph[M, M]()
-	for i, n := range c.Nodes {
+	names := func(xs []int) []string {
+		var out []string
+		for _, x := range xs {
+			out = append(out, nodeName(x))
+		}
+		return out
+	}
+	opts := []compose.GraphCompileOption{compose.WithCheckPointStore(&memStore{m: map[string][]byte{}})}
+	if len(c.IntBefore) > 0 {
+		opts = append(opts, compose.WithInterruptBeforeNodes(names(c.IntBefore)))
+	}
+	if len(c.IntAfter) > 0 {
+		opts = append(opts, compose.WithInterruptAfterNodes(names(c.IntAfter)))
+	}
+	return opts
+}
+
+type runState struct{ N int }
+
+func init() { _ = compose.RegisterSerializableType[runState]("c19_run_state") }
+
+// stateOpts renders the state handlers of a node (all of them leave the data unchanged).
+func stateOpts(n *NodeSpec) []compose.GraphAddNodeOpt {
+	var opts []compose.GraphAddNodeOpt
+	wrap := func(in *schema.StreamReader[M]) *schema.StreamReader[M] {
+		return schema.StreamReaderWithConvert(in, func(m M) (M, error) { return m, nil })
+	}
+	switch n.Pre {
+	case "value":
+		opts = append(opts, compose.WithStatePreHandler(func(ctx context.Context, in M, st *runState) (M, error) { st.N++; return in, nil }))
+	case "stream":
+		opts = append(opts, compose.WithStreamStatePreHandler(func(ctx context.Context, in *schema.StreamReader[M], st *runState) (*schema.StreamReader[M], error) {
+			st.N++
+			return in, nil
+		}))
+	case "wrap":
+		opts = append(opts, compose.WithStreamStatePreHandler(func(ctx context.Context, in *schema.StreamReader[M], st *runState) (*schema.StreamReader[M], error) {
+			st.N++
+			return wrap(in), nil
+		}))
+	}
+	switch n.Post {
+	case "value":
+		opts = append(opts, compose.WithStatePostHandler(func(ctx context.Context, out M, st *runState) (M, error) { st.N++; return out, nil }))
+	case "stream":
+		opts = append(opts, compose.WithStreamStatePostHandler(func(ctx context.Context, out *schema.StreamReader[M], st *runState) (*schema.StreamReader[M], error) {
+			st.N++
+			return out, nil
+		}))
+	case "wrap":
+		opts = append(opts, compose.WithStreamStatePostHandler(func(ctx context.Context, out *schema.StreamReader[M], st *runState) (*schema.StreamReader[M], error) {
+			st.N++
+			return wrap(out), nil
+		}))
+	}
+	return opts
+}
+
+func newGraphOpts(stateful bool) []compose.NewGraphOption {
+	if !stateful {
+		return nil
+	}
+	return []compose.NewGraphOption{compose.WithGenLocalState(func(ctx context.Context) *runState { return &runState{} })}
+}
+
+// buildGraph adds the nodes, edges and branches of one Graph[M, M]. idOf maps a node index of this
+// graph to its global id (inner nodes of a nested graph have their own id range).
+func buildGraph(e *env, nodes []NodeSpec, startSucc []int, startBranches []BranchSpec, idOf func(int) int, stateful bool) (*compose.Graph[M, M], error) {
+	keyOf := func(i int) string {
+		switch i {
+		case START:
+			return compose.START
+		case END:
+			return compose.END
+		}
+		return nodeName(idOf(i))
+	}
+	idOrStart := func(i int) int {
+		if i == START {
+			return idOf(START)
+		}
+		return idOf(i)
+	}
+	g := compose.NewGraph[M, M](newGraphOpts(stateful)...)
+	for i, n := range nodes {
+		if n.Kind == "sub" {
+			sub, opt, err := buildSub(e, idOf(i))
+			if err != nil {
+				return nil, err
+			}
+			if err := g.AddGraphNode(keyOf(i), sub, opt); err != nil {
+				return nil, err
+			}
+			continue
+		}
 		var opts []compose.GraphAddNodeOpt
 		if n.InKey != "" {
 			opts = append(opts, compose.WithInputKey(n.InKey))
@@ -307,35 +516,77 @@ func build(e *env) (compose.Runnable[M, M], error) {
 		if n.OutKey != "" {
 			opts = append(opts, compose.WithOutputKey(n.OutKey))
 		}
-		if err := g.AddLambdaNode(nodeName(i), lambdaOf(e, i), opts...); err != nil {
+		if stateful {
+			opts = append(opts, stateOpts(&nodes[i])...)
+		}
+		if err := g.AddLambdaNode(keyOf(i), lambdaOf(e, idOf(i)), opts...); err != nil {
 			return nil, err
 		}
 	}
 	wire := func(from int, succ []int, brs []BranchSpec) error {
 		for _, t := range succ {
-			if err := g.AddEdge(graphKey(from), graphKey(t)); err != nil {
+			if err := g.AddEdge(keyOf(from), keyOf(t)); err != nil {
 				return err
 			}
 		}
 		for bi := range brs {
-			if err := g.AddBranch(graphKey(from), branchOf(e, from, bi, &brs[bi])); err != nil {
+			if err := g.AddBranch(keyOf(from), branchOf(e, idOrStart(from), bi, &brs[bi], keyOf)); err != nil {
 				return err
 			}
 		}
 		return nil
 	}
-	if err := wire(START, c.StartSucc, c.StartBranches); err != nil {
+	if err := wire(START, startSucc, startBranches); err != nil {
 		return nil, err
 	}
-	for i := range c.Nodes {
-		if err := wire(i, c.Nodes[i].Succ, c.Nodes[i].Branches); err != nil {
+	for i := range nodes {
+		if err := wire(i, nodes[i].Succ, nodes[i].Branches); err != nil {
 			return nil, err
 		}
 	}
-	if c.Mode == "dag" {
-		return g.Compile(context.Background(), compose.WithNodeTriggerMode(compose.AllPredecessor))
+	return g, nil
+}
+
+// startID is the pseudo id under which the branch outcomes of a graph's START are logged:
+// START for the top-level graph, subBase*(i+1)+subStart for the nested graph of node i.
+const subStart = subBase - 1
+
+// buildSub builds the nested graph of outer node i.
+func buildSub(e *env, i int) (*compose.Graph[M, M], compose.GraphAddNodeOpt, error) {
+	sub := e.c.Nodes[i].Sub
+	idOf := func(j int) int {
+		if j == START {
+			return subBase*(i+1) + subStart
+		}
+		return subBase*(i+1) + j
 	}
-	return g.Compile(context.Background(), compose.WithNodeTriggerMode(compose.AnyPredecessor), compose.WithMaxRunSteps(300))
+	g, err := buildGraph(e, sub.Nodes, sub.StartSucc, sub.StartBranches, idOf, false)
+	if err != nil {
+		return nil, nil, err
+	}
+	if sub.Mode == "dag" {
+		return g, compose.WithGraphCompileOptions(compose.WithNodeTriggerMode(compose.AllPredecessor)), nil
+	}
+	return g, compose.WithGraphCompileOptions(compose.WithNodeTriggerMode(compose.AnyPredecessor), compose.WithMaxRunSteps(300)), nil
+}
+
+func build(e *env) (compose.Runnable[M, M], error) {
+	c := e.c
+	if c.Mode == "workflow" {
+		return buildWorkflow(e)
+	}
+	g, err := buildGraph(e, c.Nodes, c.StartSucc, c.StartBranches, func(i int) int { return i }, c.State)
+	if err != nil {
+		return nil, err
+	}
+	if c.Mode == "dag" {
+		return g.Compile(context.Background(), append(interruptOpts(c), compose.WithNodeTriggerMode(compose.AllPredecessor))...)
+	}
+	steps := 300
+	if c.MaxSteps > 0 {
+		steps = c.MaxSteps
+	}
+	return g.Compile(context.Background(), append(interruptOpts(c), compose.WithNodeTriggerMode(compose.AnyPredecessor), compose.WithMaxRunSteps(steps))...)
 }
 
 func handlerOf(prefix int) callbacks.Handler {
@@ -379,7 +630,17 @@ func runCase(e *env) runOut {
 	}()
 	select {
 	case out := <-done:
-		e.sched = scheduleOf(compose.VerifC03Events(), c19Eager(e.c))
+		evs := compose.VerifC03Events()
+		e.scheds = schedulesOf(evs, c19Eager(e.c))
+		if len(e.scheds) > 0 {
+			e.sched = e.scheds[0]
+		}
+		e.collected = map[string]int{}
+		for _, ev := range evs {
+			if ev.Kind == "recv" {
+				e.collected[ev.Key]++
+			}
+		}
 		return out
 	case <-time.After(15 * time.Second):
 		return runOut{class: "hang", msg: "run or read did not return within 15s"}
@@ -388,32 +649,37 @@ func runCase(e *env) runOut {
 
 func c19Eager(c *Case) bool { return c.Mode == "workflow" }
 
-// scheduleOf rebuilds the batches of completed tasks from the taskManager protocol trace of the
-// top-level run (task manager 0): a "recv" event is one task taken from the done channel by
-// waitOne, "empty" ends a waitAll. In eager mode wait() returns after one task.
-func scheduleOf(evs []compose.VerifC03Event, eager bool) [][]string {
-	var out [][]string
-	var cur []string
+// schedulesOf rebuilds, for every task manager of the case (the top-level run is number 0, every
+// nested graph run and every resumed run has its own), the batches of completed tasks from the
+// taskManager protocol trace: a "recv" event is one task taken from the done channel by waitOne,
+// "empty" ends a waitAll. In eager mode (top level of a Workflow only) wait() returns after one task.
+func schedulesOf(evs []compose.VerifC03Event, eagerTop bool) [][][]string {
+	var out [][][]string
+	var cur [][]string
 	for _, ev := range evs {
-		if ev.TM != 0 {
-			continue
+		for ev.TM >= len(out) {
+			out = append(out, nil)
+			cur = append(cur, nil)
 		}
+		eager := eagerTop && ev.TM == 0
 		switch ev.Kind {
 		case "recv":
 			if eager {
-				out = append(out, []string{ev.Key})
+				out[ev.TM] = append(out[ev.TM], []string{ev.Key})
 			} else {
-				cur = append(cur, ev.Key)
+				cur[ev.TM] = append(cur[ev.TM], ev.Key)
 			}
 		case "empty":
-			if !eager && len(cur) > 0 {
-				out = append(out, cur)
-				cur = nil
+			if len(cur[ev.TM]) > 0 {
+				out[ev.TM] = append(out[ev.TM], cur[ev.TM])
+				cur[ev.TM] = nil
 			}
 		}
 	}
-	if len(cur) > 0 {
-		out = append(out, cur)
+	for tm := range out {
+		if len(cur[tm]) > 0 {
+			out[tm] = append(out[tm], cur[tm])
+		}
 	}
 	return out
 }
@@ -431,13 +697,28 @@ func callAndRead(e *env, r compose.Runnable[M, M]) runOut {
 	}
 	var sr *schema.StreamReader[M]
 	var err error
+	interruptible := len(c.IntBefore)+len(c.IntAfter) > 0
+	if interruptible {
+		opts = append(opts, compose.WithCheckPointID("cp"))
+	}
 	if c.Input == "stream" {
 		in, sw := schema.Pipe[M](c.InCap)
+		e.addPipe(in.Close)
 		p := e.newProducer("input")
 		go produce(p, c.InItems, 0, func(i int) bool { return sw.Send(chunkOf[M]("in", i), nil) }, sw.Close)
 		sr, err = r.Transform(ctx, in, opts...)
 	} else {
 		sr, err = r.Stream(ctx, chunkOf[M]("in", 0), opts...)
+	}
+	// an interrupted run is resumed from its checkpoint until it completes
+	for n := 0; err != nil && interruptible && n < 40; n++ {
+		if _, ok := compose.ExtractInterruptInfo(err); !ok {
+			break
+		}
+		e.mu.Lock()
+		e.resumes++
+		e.mu.Unlock()
+		sr, err = r.Stream(ctx, M{}, opts...)
 	}
 	if err != nil {
 		return runOut{class: "run_err", msg: err.Error()}
